@@ -707,7 +707,7 @@ def run_sequences(ctx, seqs, label, judged=True, cfgs=None):
                                     key = 'c15:redis-load-raises-on-half-written-entry'
                                 if cfg.get('handles', 1) > 1:
                                     key = 'c15:disk-two-handles-%s' % o[0]
-                                if label == 'many-recipients' and o[0] == 'get' and key == 'c15:%s-get' % b:
+                                if label == 'many-recipients' and o[0] == 'get' and key in ('c15:%s-get' % b, 'c15:delivered-marks-lost-for-iterator-argument'):
                                     key = 'c15:delivered-marks-wrong-with-many-recipients'
                                 fail(ctx, key, dict(case, at=j),
                                          '%s %r returned %r, the reference store returns %r' % (b, o, got, want))
